@@ -377,6 +377,9 @@ fn run_flush(a: &Args) -> Report {
 fn run_socket(a: &Args) -> Report {
     let mut rep = Report::new("C10", &a.leg, a.seed);
     let mut r = Rng::new(a.shard_seed());
+    if a.shard % 4 == 3 {
+        return run_stream_stall(a, rep, r);
+    }
     let transport = a.shard % 3;
     let aggressive = r.chance(1, 2);
     let dir = std::env::temp_dir().join(format!("vh-c10-{}-{}", std::process::id(), a.shard));
@@ -617,5 +620,142 @@ fn run_small(a: &Args) -> Report {
             rep.sample(jo! {"threads" => n, "ops_each" => per, "counter_sum_sent" => sum, "histogram_values_sent" => hv});
         }
     }
+    rep
+}
+
+/// Unix stream transport with an agent that stalls longer than the write timeout in the middle of a very large payload
+/// and then resumes: every connection the agent accepted must carry a correctly framed stream (whole length-prefixed
+/// messages, at most a truncated last frame where the exporter gave the connection up).
+fn run_stream_stall(a: &Args, mut rep: Report, mut r: Rng) -> Report {
+    let dir = std::env::temp_dir().join(format!("vh-c10s-{}-{}", std::process::id(), a.shard));
+    let _ = std::fs::create_dir_all(&dir);
+    let path = dir.join("s.sock");
+    let _ = std::fs::remove_file(&path);
+    let l = std::os::unix::net::UnixListener::bind(&path).unwrap();
+    l.set_nonblocking(true).unwrap();
+    let stop = Arc::new(AtomicBool::new(false));
+    let conns_out: Arc<std::sync::Mutex<Vec<Vec<u8>>>> = Arc::new(std::sync::Mutex::new(Vec::new()));
+    let (stop2, out2) = (stop.clone(), conns_out.clone());
+    let stall_ms = 300 + r.below(500);
+    let agent = std::thread::spawn(move || {
+        let mut conns: Vec<(std::os::unix::net::UnixStream, Vec<u8>, bool)> = Vec::new();
+        let mut stalled_once = false;
+        loop {
+            if let Ok((s, _)) = l.accept() {
+                s.set_nonblocking(true).unwrap();
+                conns.push((s, Vec::new(), false));
+            }
+            for (s, buf, eof) in conns.iter_mut() {
+                if *eof {
+                    continue;
+                }
+                let mut tmp = [0u8; 65536];
+                match s.read(&mut tmp) {
+                    Ok(0) => *eof = true,
+                    Ok(n) => {
+                        buf.extend_from_slice(&tmp[..n]);
+                        // stall once, in the middle of a large frame
+                        if !stalled_once && buf.len() > 100_000 {
+                            stalled_once = true;
+                            std::thread::sleep(Duration::from_millis(stall_ms));
+                        }
+                    }
+                    Err(_) => {}
+                }
+            }
+            if stop2.load(Ordering::SeqCst) {
+                // final drain
+                for (s, buf, eof) in conns.iter_mut() {
+                    let mut tmp = [0u8; 65536];
+                    while !*eof {
+                        match s.read(&mut tmp) {
+                            Ok(0) => *eof = true,
+                            Ok(n) => buf.extend_from_slice(&tmp[..n]),
+                            Err(_) => break,
+                        }
+                    }
+                }
+                *out2.lock().unwrap() = conns.into_iter().map(|c| c.1).collect();
+                return;
+            }
+            std::thread::sleep(Duration::from_millis(1));
+        }
+    });
+    let builder = DogStatsDBuilder::default()
+        .with_remote_address(format!("unix://{}", path.display()))
+        .unwrap()
+        .with_maximum_payload_length(1 << 20)
+        .unwrap()
+        .with_write_timeout(Duration::from_millis(80))
+        .with_flush_interval(Duration::from_millis(30))
+        .with_telemetry(false)
+        .with_histogram_sampling(true)
+        .with_histogram_reservoir_size(200_000)
+        .send_histograms_as_distributions(true);
+    let rec = match builder.build() {
+        Ok(r) => r,
+        Err(e) => {
+            stop.store(true, Ordering::SeqCst);
+            let _ = agent.join();
+            rep.inconclusive(format!("exporter build failed: {:?}", e));
+            return rep;
+        }
+    };
+    let h = rec.register_histogram(&Key::from_name("big"), &MD);
+    let c = rec.register_counter(&Key::from_name("trickle"), &MD);
+    for i in 0..200_000 {
+        h.record(i as f64 + 0.125);
+    }
+    for _ in 0..60 {
+        c.increment(1);
+        h.record(1.0);
+        std::thread::sleep(Duration::from_millis(25));
+    }
+    stop.store(true, Ordering::SeqCst);
+    let _ = agent.join();
+    let _ = std::fs::remove_dir_all(&dir);
+    let conns = conns_out.lock().unwrap().clone();
+    rep.case(mix(77, conns.len() as u64), true);
+    rep.case(mix(78, conns.iter().map(|c| c.len() as u64).sum()), true);
+    let mut frames = 0usize;
+    let mut truncated_tails = 0usize;
+    for (ci, b) in conns.iter().enumerate() {
+        let mut i = 0usize;
+        while i < b.len() {
+            if i + 4 > b.len() {
+                truncated_tails += 1;
+                break;
+            }
+            let l = u32::from_le_bytes([b[i], b[i + 1], b[i + 2], b[i + 3]]) as usize;
+            if l == 0 || l > (1 << 20) {
+                rep.violation("C10:socket-framing:stream-after-write-timeout", jo! {"what" => "on a unix stream connection the bytes following a frame are not a valid length prefix (a later payload was written into the middle of an abandoned frame)", "connection" => ci, "offset" => i, "bogus_length" => l, "connections" => conns.len(), "agent_stall_ms" => stall_ms});
+                return rep;
+            }
+            if i + 4 + l > b.len() {
+                // the exporter gave this connection up mid-frame: acceptable only as the last thing on the connection,
+                // and what was received of it must be the prefix of ONE message (no newline, no binary length bytes inside)
+                let part = &b[i + 4..];
+                if part.iter().any(|x| *x == b'\n' || *x == 0) {
+                    rep.violation("C10:socket-framing:stream-after-write-timeout", jo! {"what" => "after a frame that was cut short by a write timeout, further payload bytes (a newline / a binary length prefix) follow on the same unix stream connection: later payloads were written into the middle of the abandoned frame", "connection" => ci, "frame_offset" => i, "announced_len" => l, "received_of_it" => part.len(), "connections" => conns.len(), "agent_stall_ms" => stall_ms});
+                    return rep;
+                }
+                truncated_tails += 1;
+                break;
+            }
+            if let Err(e) = dsdparse::parse(&b[i + 4..i + 4 + l]) {
+                rep.violation("C10:socket-framing:stream-after-write-timeout", jo! {"what" => "a length-prefixed frame on a unix stream connection is not one DogStatsD message", "error" => e, "connection" => ci, "offset" => i, "agent_stall_ms" => stall_ms});
+                return rep;
+            }
+            frames += 1;
+            i += 4 + l;
+        }
+    }
+    if frames == 0 {
+        rep.inconclusive("no complete frame received in the stream-stall scenario");
+    }
+    rep.count("stream_stall:connections", conns.len() as u64);
+    rep.count("stream_stall:whole_frames", frames as u64);
+    rep.count("stream_stall:connections_abandoned_mid_frame", truncated_tails as u64);
+    rep.sample(jo! {"scenario" => "unix stream, agent stalls mid-payload longer than the write timeout", "agent_stall_ms" => stall_ms, "connections" => conns.len(), "whole_frames" => frames, "abandoned_mid_frame" => truncated_tails});
     rep
 }
